@@ -103,6 +103,25 @@ var entries = []entry{
 		_, err := m.GetInt64(ctx)
 		return err
 	}},
+	// a length announced by the peer, then that many raw bytes: how the TOKEN handshake reads its
+	// nonces and MACs and the KERBEROS exchange its tickets (those reads sit behind echoes of fresh
+	// random values that a recorded transcript cannot supply, so the pattern also runs on its own)
+	{name: "length-prefixed-bytes", build: func(ctx context.Context, m *message.Message, enc bool) error {
+		_ = m.PutInt(ctx, 24)
+		_ = m.PutBytes(ctx, []byte("twenty-four raw bytes..."))
+		return m.PutInt(ctx, 9)
+	}, decode: func(ctx context.Context, st *stream.Stream) error {
+		m := message.NewMessageFromStream(st)
+		n, err := m.GetInt(ctx)
+		if err != nil {
+			return err
+		}
+		if _, err := m.GetBytes(ctx, n); err != nil {
+			return err
+		}
+		_, err = m.GetInt(ctx)
+		return err
+	}},
 	{name: "string-capped", cap: 64, build: func(ctx context.Context, m *message.Message, enc bool) error {
 		_ = m.PutString(ctx, "short")
 		return m.PutString(ctx, "second")
@@ -611,7 +630,10 @@ func runFrames(s *kernel.Sim, p params) {
 	recv := []func(st *stream.Stream) error{
 		func(st *stream.Stream) error { _, err := st.ReceiveCompleteMessage(ctx); return err },
 		func(st *stream.Stream) error { return st.StartMessageRead(ctx) },
-		func(st *stream.Stream) error { _, err := message.NewMessageFromStream(st).GetRemainingBytes(ctx); return err },
+		func(st *stream.Stream) error {
+			_, err := message.NewMessageFromStream(st).GetRemainingBytes(ctx)
+			return err
+		},
 		func(st *stream.Stream) error { _, err := message.NewMessageFromStream(st).GetString(ctx); return err },
 	}
 	feed(s, p, wire, 0, recv[p.Frame%len(recv)])
